@@ -214,10 +214,14 @@ def run(eng, R):
     check_flagged("matrix constraint:uncertainties", cw, "uncertainties")
     we = helpers_w[0]
     src = common.src_of(we.node)
-    R.ob("E4", "error source:error_value", "if _is_relative: _err_val = _err_obj.error_rel else: _err_val = _err_obj.error" in src.replace("\n", " "), (we.file, we.lineno),
-         "write_errors_to_yaml must write the relative error values of a relative source and the absolute ones otherwise")
-    R.ob("E4", "error source:matrix", "if _is_relative: _yaml_section[-1]['matrix'] = _err_obj.cov_mat_rel else: _yaml_section[-1]['matrix'] = _err_obj.cov_mat" in src, (we.file, we.lineno),
-         "write_errors_to_yaml must write the relative covariance matrix of a relative matrix source and the absolute one otherwise")
+    # placeholders: `_e` the error dictionary, `_r` the relative flag, `_v` the values written, `_s` the section list
+    OBJ = ["_e['err']", "_o"]
+    ok = any(common.like_any(src, ["_r = %s.relative" % o, "_v = %s.error_rel if _r else %s.error" % (o, o)] + (["_o = _e['err']"] if o == "_o" else []),
+                             ["_v = %s.error_rel if %s.relative else %s.error" % (o, o, o)] + (["_o = _e['err']"] if o == "_o" else [])) for o in OBJ)
+    R.ob("E4", "error source:error_value", ok, (we.file, we.lineno), "write_errors_to_yaml must write the relative error values of a relative source and the absolute ones otherwise")
+    ok = any(common.like_any(src, ["_r = %s.relative" % o, "_s[-1]['matrix'] = %s.cov_mat_rel if _r else %s.cov_mat" % (o, o)] + (["_o = _e['err']"] if o == "_o" else []),
+                             ["_s[-1]['matrix'] = %s.cov_mat_rel if %s.relative else %s.cov_mat" % (o, o, o)] + (["_o = _e['err']"] if o == "_o" else [])) for o in OBJ)
+    R.ob("E4", "error source:matrix", ok, (we.file, we.lineno), "write_errors_to_yaml must write the relative covariance matrix of a relative matrix source and the absolute one otherwise")
 
     # ---------------------------------------------------------------- E5
     ic = p.find_class("IndexedContainer").find_method("_calculate_total_error")
